@@ -143,13 +143,17 @@ func (s *store) Consume(ctx context.Context, consumerName string, f func(uint64,
 		for idx, record := range b.Records {
 			newOffset := b.FirstOffset + uint64(idx)
 
+			verifPoint("consume.beforeCallback", newOffset)
 			err := f(newOffset, mustDecode(record))
 			if err != nil {
 				return err
 			}
+			verifPoint("consume.afterCallback", newOffset)
 			offset = newOffset
 			Encoding.PutUint64(stateOffset, offset)
+			verifPoint("consume.afterPersist", newOffset)
 			s.maybeTruncate(offset)
+			verifPoint("consume.afterTruncate", newOffset)
 		}
 
 		return nil
